@@ -424,7 +424,8 @@ PASS_STATUS = {
 CHAIN_THEOREMS = {
     "go": ["C06_go_EnumsNamed (all wfIR inputs)", "C06_go_EnumNames (all inputs)", "NoUnion/NoNullPairUnion/NonRequiredNullable/StructsNamedOutsideAllOf: refuted (counterexamples), pass-level post-conditions only"],
     "java": ["C06_java_EnumsNamed (all wfIR inputs)", "other conjuncts: refuted (counterexamples), pass-level post-conditions only"],
-    "php": ["no chain-level theorem (last pass InlineObjectsWithTypes has no preservation lemma); full statement refuted; C06_post_SanitizeEnumMemberNames"],
+    "php": ["C06_php_beforeInline: EnumsNamed and sanitised member names hold for the IR handed to the last pass (all wfIR inputs)",
+            "no theorem across InlineObjectsWithTypes (no preservation lemma); full statement refuted (that pass drops Nullable)"],
     "python": ["C06_python_StructsNamedOutsideAllOf (all wfIR inputs)", "C06_python_NonRequiredNullable_partial (SimpleIndex)", "NoNullPairUnion, EnumNames: refuted"],
     "typescript": ["C06_typescript_partial (EnumsNamed and NumericNamesInRange)", "full statement refuted"],
 }
